@@ -91,7 +91,7 @@ THEOREM_FUNCS = {
     "encodeHandshakeRequest_eq": ["encodeHandshakeRequest"], "encodeEncryptedRequest_eq": ["encodeEncryptedRequest"],
     "decodeHandshakeResponse_eq": ["decodeHandshakeResponse"], "decodeEncryptedResponse_eq": ["decodeEncryptedResponse"],
     "processPacket_eq": ["processPacket"], "getLocalKey_eq": ["getLocalKey"], "packetEncode_eq": ["packetEncode"],
-    "packetDecode_eq": ["packetDecode"], "reasmStep_eq": ["reasmStep"],
+    "packetDecode_eq": ["packetDecode"], "reasmStep_eq": ["reasmStep"], "writeV3_eq": ["writeV3"], "nextMessageId_eq": ["nextMessageId"], "responseValidate_eq": ["responseValidate"],
 }
 ALL_TRANSLATED = sorted({f for fs in THEOREM_FUNCS.values() for f in fs})
 
@@ -254,7 +254,7 @@ class Driver:
             self.p.kill()
 
 
-TRANSLATED_PROPS = {"C01", "C02", "C03", "C04", "C05", "C06", "C09", "C10", "C11", "C12", "C13"}
+TRANSLATED_PROPS = {"C01", "C02", "C03", "C04", "C05", "C06", "C07", "C09", "C10", "C11", "C12", "C13"}
 
 
 def property_files(pid):
